@@ -26,7 +26,7 @@ MANIFEST = {
                  'invariant; z3; finite-scope counter-models replayed natively; bounded brute-force all-simple-paths oracle as stand-in',
 }
 UNITS = ['unit_wrap', 'unit_frac', 'unit_dispatch', 'unit_percolate']
-BOUNDED = ['bounded_wrap', 'bounded_paths']
+BOUNDED = ['bounded_wrap', 'bounded_paths', 'bounded_purity']
 META = {
     'clauses': {'C10.wrap': 'P', 'C10.dispatch': 'P (minmax-energy: known finding)', 'C10.valid': 'A (networkx) + P (glue)',
                 'C10.minimal': 'A (networkx) + B', 'C10.perc.stop/min': 'P + A per peak', 'C10.graph': 'B (this round)'},
@@ -675,3 +675,10 @@ def bounded_paths(tier, seed):
         if r['reproduced']:
             st.violation('paths', r['detail'], 'verif.props.c10:replay_paths', inp)
     return st.result()
+
+
+# generic purity stand-in (arguments unchanged, second call equal, fresh call equal) over this property's API calls
+from verif.native.purity import make_bounded as _make_purity  # noqa: E402
+from verif.props.purity_reg import REG as _PURITY_REG  # noqa: E402
+PURITY = _PURITY_REG['C10']
+bounded_purity = _make_purity('C10', PURITY)
